@@ -107,6 +107,33 @@ fn boundaries(t: &str) -> Vec<usize> {
     v
 }
 
+/// A very large input the named rule accepts: `*long:<rule>` seeds are `prefix|unit|suffix`; the unit is repeated until the text
+/// crosses a size where implementations change gear (4 KiB, 16 KiB, 64 KiB).
+fn build_big_text(rng: &mut SplitMix, g: &Grammar) -> Option<(String, Vec<(String, usize, usize)>)> {
+    let longs: Vec<&(String, String)> = g.seeds.iter().filter(|s| s.0.starts_with("*long:")).collect();
+    if longs.is_empty() {
+        return None;
+    }
+    let (tag, spec) = longs[rng.below(longs.len())];
+    let rule = tag["*long:".len()..].to_string();
+    let parts: Vec<&str> = spec.splitn(3, '|').collect();
+    if parts.len() != 3 || parts[1].is_empty() {
+        return None;
+    }
+    let target = [4_200usize, 16_500, 16_500, 66_000][rng.below(4)] + rng.below(64);
+    let mut t = String::from(parts[0]);
+    while t.len() < target {
+        t.push_str(parts[1]);
+    }
+    t.push_str(parts[2]);
+    let len = t.len();
+    Some((t, vec![(rule, 0, len)]))
+}
+
+fn ordinary_seeds(g: &Grammar) -> Vec<usize> {
+    (0..g.seeds.len()).filter(|i| !g.seeds[*i].0.starts_with("*long:")).collect()
+}
+
 fn build_text(rng: &mut SplitMix, g: &Grammar) -> (String, Vec<(String, usize, usize)>) {
     let k = 1 + rng.below(4);
     let seps = ["", " ", "\n", "#", "", "\n"];
@@ -116,7 +143,8 @@ fn build_text(rng: &mut SplitMix, g: &Grammar) -> (String, Vec<(String, usize, u
         text.push_str(seps[rng.below(seps.len())]);
     }
     // bias towards repeating the same rule: two results of one rule type from different sub-ranges
-    let first = rng.below(g.seeds.len());
+    let ord = ordinary_seeds(g);
+    let first = ord[rng.below(ord.len())];
     for i in 0..k {
         let idx = if i > 0 && rng.chance(1, 2) {
             // another seed of the same rule as the first piece
@@ -126,7 +154,7 @@ fn build_text(rng: &mut SplitMix, g: &Grammar) -> (String, Vec<(String, usize, u
         } else if i == 0 {
             first
         } else {
-            rng.below(g.seeds.len())
+            ord[rng.below(ord.len())]
         };
         let (rule, t) = &g.seeds[idx];
         let a = text.len();
@@ -327,12 +355,20 @@ pub fn generate(seed: u64, grammars: &[Grammar]) -> Scenario {
                 let gi = enabled[rng.below(enabled.len())];
                 let g = &grammars[gi];
                 let mut best = build_text(&mut rng, g);
+                let mut big = false;
+                if rng.chance(1, 40) {
+                    // a very large input (one successful parse of it is the "unusual earlier call" of many optimisations)
+                    if let Some(b) = build_big_text(&mut rng, g) {
+                        best = b;
+                        big = true;
+                    }
+                }
                 if let Some(old) = slots[slot].take() {
                     last_dropped_len = Some(old.text.len());
                     parses.retain(|p| p.1 != slot);
                     results.retain(|p| p.1 != slot);
                     // successor of exactly the same byte length in two cases out of three
-                    if rng.chance(2, 3) {
+                    if !big && rng.chance(2, 3) {
                         best = fit_length(&mut rng, best.0, best.1, old.text.len());
                     }
                     if rng.chance(1, 2) {
@@ -344,7 +380,7 @@ pub fn generate(seed: u64, grammars: &[Grammar]) -> Scenario {
                     }
                     ops.push(Op::DropInput { slot });
                 } else if let Some(want) = last_dropped_len {
-                    if rng.chance(1, 2) {
+                    if !big && rng.chance(1, 2) {
                         best = fit_length(&mut rng, best.0, best.1, want);
                     }
                 }
